@@ -393,7 +393,11 @@ func c20(ctx *Ctx) {
 				}
 				// (I3) all packages type-check together (only for maximal histories and singletons: the check is the same function of the state)
 				if len(h) == 1 || len(h) == 4 {
-					if msg := c20TypeCheck(chk, cfg, st); msg != "" && sameDef && strings.Contains(msg, "Common redeclared") && ctx.Run.Listed("SAME_DEF_NAME_TWO_FILES_ONE_PACKAGE") {
+					if msg := c20TypeCheck(chk, cfg, st); msg != "" && strings.Contains(msg, "import each other cyclically") && strings.Contains(u.name, "cycle") {
+						ctx.Run.Count("states_with_import_cycle_forced_by_the_mapping(not judged)", 1) // a reference cycle split over two packages cannot build in Go
+					} else if msg != "" && (strings.HasPrefix(u.name, "allof-ref") || strings.HasPrefix(u.name, "anyof-ref")) && strings.Contains(msg, "imported and not used") && ctx.Run.Listed("CROSS_PACKAGE_COMPOSITE_UNUSED_IMPORT") {
+						ctx.Run.Known("CROSS_PACKAGE_COMPOSITE_UNUSED_IMPORT", fmt.Sprintf("C20/%s: history %v: %s", name, h, trunc(msg, 200)), replay)
+					} else if msg != "" && sameDef && strings.Contains(msg, "Common redeclared") && ctx.Run.Listed("SAME_DEF_NAME_TWO_FILES_ONE_PACKAGE") {
 						ctx.Run.Known("SAME_DEF_NAME_TWO_FILES_ONE_PACKAGE", fmt.Sprintf("C20/%s: history %v: %s", name, h, trunc(msg, 200)), replay)
 					} else if msg != "" {
 						ctx.Run.Violation("packages-do-not-build:"+normCompileMsg(msg), fmt.Sprintf("C20/%s: history %v: %s", name, h, msg), replay)
